@@ -63,7 +63,7 @@ Fixpoint frac6 (n : nat) (ds : text) : Z :=
            end
   end.
 
-(** duration_from_unicode (after the repairs): prefix match of _duration_re *)
+(** duration_from_unicode (after the repairs): _duration_re, anchored at both ends *)
 Definition duration_from_unicode (s : text) : out Z :=
   let (neg, s1) := match s with 45 :: r => (true, r) | _ => (false, s) end in
   match s1 with
@@ -71,20 +71,24 @@ Definition duration_from_unicode (s : text) : out Z :=
       let (y, s3) := scan_unit 89 s2 in
       let (mo, s4) := scan_unit 77 s3 in
       let (d, s5) := scan_unit 68 s4 in
-      let '(h, mi, (sec, fr)) :=
+      let '(h, mi, (sec, fr), rest) :=
         match s5 with
         | 84 :: s6 =>
             let (h, s7) := scan_unit 72 s6 in
             let (mi, s8) := scan_unit 77 s7 in
-            let (sf, _) := scan_seconds s8 in (h, mi, sf)
-        | _ => (0, 0, (0, []))
+            let (sf, s9) := scan_seconds s8 in (h, mi, sf, s9)
+        | _ => (0, 0, (0, []), s5)
         end in
-      let days := d + mo * 30 + y * 365 in
-      let n := days * US_DAY + h * 3600000000 + mi * 60000000 + sec * 1000000 + frac6 6 fr in
-      if td_ok n then
-        let n' := if neg then - n else n in
-        if td_ok n' then Ok n' else VFault
-      else VFault
+      match rest with
+      | [] =>                                   (* the regex ends in \Z *)
+          let days := d + mo * 30 + y * 365 in
+          let n := days * US_DAY + h * 3600000000 + mi * 60000000 + sec * 1000000 + frac6 6 fr in
+          if td_ok n then
+            let n' := if neg then - n else n in
+            if td_ok n' then Ok n' else VFault
+          else VFault
+      | _ => VFault
+      end
   | _ => VFault
   end.
 
